@@ -131,7 +131,10 @@ fn p_thick(l: Line, w: u32) -> String {
         // distance to the ideal line = |cross| / len <= w/2 + 5/2
         let cross = ox * dy - oy * dx;
         if 4 * cross * cross > (wi + 5) * (wi + 5) * len2 {
-            return format!("FAIL distance {}:{} cross={}", p.x, p.y, cross);
+            // known finding K17_wide_stroke: skipped Extra points are not counted by the thickness accumulator, strokes
+            // of slope ~0.6 come out up to 12 % too wide; the distance clause can fail from width 34 on
+            let class = if w >= 34 { "class=K17_wide_stroke " } else { "" };
+            return format!("FAIL {}distance {}:{} cross={}", class, p.x, p.y, cross);
         }
         // projection at most one pixel beyond either end: -len <= dot <= len^2 + len
         let dot = ox * dx + oy * dy;
